@@ -220,6 +220,19 @@ def xecma (line : String) : String :=
     match (field fh "n").toNat?, (field fh "active").toNat? with
     | some n, some act =>
       let c := ecma_consts FF n
+      let sc := (fnum fh "SC").getD 1.0
+      let pf := (fnum fh "PF").getD 1e-6
+      let qa := (floats (field fh "QA")).getD []
+      let qb := (floats (field fh "QB")).getD []
+      let lo := (floats (field fh "LO")).getD []
+      let hi := (floats (field fh "HI")).getD []
+      let f : List Float → Float := fun x => sc * objective (field fh "OBJ") n qa qb x
+      -- `BoxConstraintHandler::isFeasible` (with its 1e-13 slack) / `closestFeasible`; no box: everything is feasible
+      let K : Constraint Float :=
+        { feasible := fun x => lo.isEmpty || (List.zip x (List.zip lo hi)).all fun (xi, l, h) => !(xi + 1.0e-13 < l || xi - 1.0e-13 > h),
+          closest := fun x => List.zipWith (fun xi (lh : Float × Float) =>
+            let a := if xi < lh.1 then lh.1 else xi        -- std::max(point(i), m_lower(i))
+            if lh.2 < a then lh.2 else a) x (List.zip lo hi) }   -- std::min(point(i), m_upper(i))
       let rs := gens.map fun g =>
         match g.splitOn " > " with
         | [b, a] => do
@@ -236,11 +249,16 @@ def xecma (line : String) : String :=
           let zz := Vec.normSqr z
           -- the sampled step is `L z` (triangular product, BLAS): checked with tolerance
           let lz := (List.range n).map fun i => (List.range n).foldl (fun acc j => acc + ((s.L.getD j []).getD i 0) * z.getD j 0) 0.0
+          -- the offspring re-evaluated by the MODEL of `PenalizingEvaluator` (Model/CMA.lean): x_o = x + sigma y, projected onto
+          -- the feasibility box, objective at the projection, penalty factor as configured
+          let xo := List.zipWith (fun xi yi => xi + s.sigma * yi) s.x y
+          let fuM := unpenalized K f xo
+          let fpM := penalized K f pf xo
           match ecmaStep FF k s y zz fp fu with
           | none => some (if threw then 0 else 2, "throw")
           | some s' =>
             if threw then some (2, "throw") else
-            some (worstOf [("step=Lz", cmpVec lz y), ("sigma", cmpNum s'.sigma.abs s'.sigma (← fnum fa "S")), ("pSucc", cmpNum 1 s'.pSucc (← fnum fa "P")),
+            some (worstOf [("step=Lz", cmpVec lz y), ("unpenalizedFitness", cmpNum fu.abs fuM fu), ("penalizedFitness", cmpNum fp.abs fpM fp), ("sigma", cmpNum s'.sigma.abs s'.sigma (← fnum fa "S")), ("pSucc", cmpNum 1 s'.pSucc (← fnum fa "P")),
               ("path", cmpVec s'.path (← floats (field fa "PC"))), ("L", cmpVec (rowMajor n s'.L) (← floats (field fa "L"))),
               ("ancestral", cmpVec s'.anc (← floats (field fa "AF"))), ("bestPoint", cmpVec s'.bestPoint (← floats (field fa "BP"))),
               ("bestValue", cmpNum 0 s'.bestValue (← fnum fa "BV")), ("searchPoint", cmpVec s'.x (← floats (field fa "X")))])
